@@ -30,9 +30,9 @@ CHECKS = {
         "technique": "Hypothesis generators + before/after snapshot invariant",
     },
     "C05": {
-        "text": "Generated operation histories (validate eager/lazy, component validate, coerce, YAML/JSON/script, statistics, strategy/example, repr/eq/copy/deepcopy/pickle, every transforming method, model to_schema/subclass) are interpreted step by step against DataFrameSchema, SeriesSchema and DataFrameModel-backed schemas; after every step the structural fingerprint, equality with a snapshot, every verdict and every observation output must match those of a never-used schema of the same spec; a process-isolated family covers once-per-process registry state. Exploration.",
+        "text": "Generated operation histories (validate eager/lazy, component validate, coerce, YAML/JSON/script, statistics, strategy/example, repr/eq/copy/deepcopy/pickle, every transforming method, model to_schema/subclass) are interpreted step by step against DataFrameSchema, SeriesSchema and DataFrameModel-backed schemas; after every step the structural fingerprint, equality with a snapshot, every verdict and every observation output must match those of a never-used schema of the same spec; a process-isolated family covers once-per-process registry state. Round 3: a polars_history family (validate on DataFrame / LazyFrame at every depth, standalone column validation, copies, transformations, a user config_context unwinding with an exception) with the same after-every-step invariant on polars schemas. Exploration.",
         "design_ref": "DESIGN.md §2 C05",
-        "note": "Oracle is history-independence against pandera's own answer on a fresh schema; state is seen through harness.fp (object graph, functions by qualified name). One recorded known finding (Model.to_schema hands out the cached object). Pandas backend only.",
+        "note": "Oracle is history-independence against pandera's own answer on a fresh schema; state is seen through harness.fp (object graph, functions by qualified name). One recorded known finding (Model.to_schema hands out the cached object). The rich histories are pandas-only; polars schemas get the compact polars_history family.",
         "technique": "Hypothesis-generated JSON histories interpreted stepwise (stateful invariant checking) + enumerated subprocess matrix",
     },
     "C06": {
